@@ -215,10 +215,10 @@ class C17(Check):
         f = streams["fault"]
         rates = {}
         if faults and f.random() > 0.1:
-            kinds = ["drop", "dup", "reorder", "corrupt", "truncate", "garbage", "clock_jump", "restart"]
+            kinds = ["drop", "dup", "reorder", "corrupt", "truncate", "garbage", "clock_jump", "restart", "transport"]
             enabled = [x for x in kinds if f.random() < 0.5]
             for x in enabled:
-                rates[x] = f.random() * (0.05 if x in ("restart", "clock_jump") else 0.3)
+                rates[x] = f.random() * (0.05 if x in ("restart", "clock_jump", "transport") else 0.3)
         npeers = k.randrange(1, 4)
         n = k.choice([1, 2, 3, 5, 8, 13, 21, 34, 55, 89, 144, 200]) if topo == "A" else k.choice([3, 8, 20, 40, 80])
         # class mix per run (swarm)
@@ -247,6 +247,8 @@ class C17(Check):
                     ops.append({"kind": "clock_jump", "t": round(t, 6), "prio": 0, "dt": f.choice([-3600.0, -1.0, 1.0, 86400.0])})
                 if f.random() < rates.get("restart", 0):
                     ops.append({"kind": "restart", "t": round(t, 6), "prio": 0, "dst": op["dst"]})
+                if f.random() < rates.get("transport", 0):
+                    ops.append({"kind": f.choice(["new_transport", "connection_lost"]), "t": round(t, 6), "prio": 0, "dst": op["dst"]})
                 if f.random() < rates.get("drop", 0):
                     dropped += 1
                     continue
@@ -521,6 +523,18 @@ class _Run:
                 self._mk_handler(op["dst"])
                 self.res.fault("restart")
                 self.log.add(self.loop.time(), op["dst"], "restart", None)
+        elif k == "new_transport":
+            # the OS hands the handler a new transport (socket re-created) without telling it that the old one was lost
+            if op["dst"] in self.handlers:
+                self.handlers[op["dst"]].connection_made(SimDatagramTransport(op["dst"], self._on_send))
+                self.res.fault("new_transport")
+                self.log.add(self.loop.time(), op["dst"], "new_transport", None)
+        elif k == "connection_lost":
+            if op["dst"] in self.handlers:
+                self.handlers[op["dst"]].connection_lost(None)
+                self.model[op["dst"]]["connected"] = False  # documented effect of connection_lost
+                self.res.fault("connection_lost")
+                self.log.add(self.loop.time(), op["dst"], "connection_lost", None)
         elif k == "quiet":
             self._quiet()
 
